@@ -26,6 +26,8 @@ pub struct Exec {
     /// net stack pointer change at exit, bytes (x86 `ret` pops 8)
     pub stack_delta: i64,
     pub executed: Vec<u64>,
+    /// byte length of each executed instruction (parallel to `executed`)
+    pub lens: Vec<u8>,
     pub error: Option<String>,
 }
 
@@ -95,6 +97,7 @@ pub fn run_x86_64(w: &World, entry: u64, allowed: &[(u64, u64)], stop_at: Option
         if op == 0xF3 {
             match fetch(w, pc, 4) {
                 Ok(v) if v == [0xF3, 0x0F, 0x1E, 0xFA] => {
+                    ex.lens.push(4);
                     pc += 4;
                     continue;
                 }
@@ -113,12 +116,16 @@ pub fn run_x86_64(w: &World, entry: u64, allowed: &[(u64, u64)], stop_at: Option
         let rex_b = ((rex & 1) << 3) as usize;
         let rex_r = ((rex & 4) << 1) as usize;
         match op {
-            0x90 => pc = p + 1,
+            0x90 => {
+                ex.lens.push((p + 1 - pc) as u8);
+                pc = p + 1
+            }
             0xE9 => {
                 let d = match fetch(w, p + 1, 4) {
                     Ok(v) => i32::from_le_bytes([v[0], v[1], v[2], v[3]]),
                     Err(e) => fail!("{e}"),
                 };
+                ex.lens.push((p + 5 - pc) as u8);
                 pc = (p + 5).wrapping_add(d as i64 as u64);
             }
             0xEB => {
@@ -126,6 +133,7 @@ pub fn run_x86_64(w: &World, entry: u64, allowed: &[(u64, u64)], stop_at: Option
                     Ok(v) => v[0] as i8,
                     Err(e) => fail!("{e}"),
                 };
+                ex.lens.push((p + 2 - pc) as u8);
                 pc = (p + 2).wrapping_add(d as i64 as u64);
             }
             0xB8..=0xBF => {
@@ -136,6 +144,7 @@ pub fn run_x86_64(w: &World, entry: u64, allowed: &[(u64, u64)], stop_at: Option
                         Err(e) => fail!("{e}"),
                     };
                     regs[r] = XReg { mask: u64::MAX, val: v };
+                    ex.lens.push((p + 9 - pc) as u8);
                     pc = p + 9;
                 } else {
                     let v = match fetch(w, p + 1, 4) {
@@ -143,6 +152,7 @@ pub fn run_x86_64(w: &World, entry: u64, allowed: &[(u64, u64)], stop_at: Option
                         Err(e) => fail!("{e}"),
                     };
                     regs[r] = XReg { mask: u64::MAX, val: v as u64 };
+                    ex.lens.push((p + 5 - pc) as u8);
                     pc = p + 5;
                 }
                 ex.written |= 1 << r;
@@ -165,6 +175,7 @@ pub fn run_x86_64(w: &World, entry: u64, allowed: &[(u64, u64)], stop_at: Option
                     regs[rr].val = (regs[rr].val & !0xFF) | v;
                     ex.written |= 1 << rr;
                 }
+                ex.lens.push((p + 2 - pc) as u8);
                 pc = p + 2;
             }
             0xC7 => {
@@ -183,6 +194,7 @@ pub fn run_x86_64(w: &World, entry: u64, allowed: &[(u64, u64)], stop_at: Option
                 let val = if rex_w { v as i64 as u64 } else { v as u32 as u64 };
                 regs[r] = XReg { mask: u64::MAX, val };
                 ex.written |= 1 << r;
+                ex.lens.push((p + 6 - pc) as u8);
                 pc = p + 6;
             }
             0x31 | 0x33 => {
@@ -197,6 +209,7 @@ pub fn run_x86_64(w: &World, entry: u64, allowed: &[(u64, u64)], stop_at: Option
                 }
                 regs[a] = XReg { mask: u64::MAX, val: 0 };
                 ex.written |= 1 << a;
+                ex.lens.push((p + 2 - pc) as u8);
                 pc = p + 2;
             }
             0xFF => {
@@ -210,6 +223,7 @@ pub fn run_x86_64(w: &World, entry: u64, allowed: &[(u64, u64)], stop_at: Option
                     if regs[r].mask != u64::MAX {
                         fail!("indirect jump through a register the sequence did not fully set (reg {r}) at {pc:#x}");
                     }
+                    ex.lens.push((p + 2 - pc) as u8);
                     pc = regs[r].val;
                 } else if m == 0x25 {
                     // jmp qword ptr [rip+disp32]
@@ -221,6 +235,7 @@ pub fn run_x86_64(w: &World, entry: u64, allowed: &[(u64, u64)], stop_at: Option
                     match load(w, a, 8) {
                         Ok(v) => {
                             ex.loads.push((a, 8, v));
+                            ex.lens.push((p + 6 - pc) as u8);
                             pc = v;
                         }
                         Err(e) => fail!("{e}"),
@@ -234,6 +249,7 @@ pub fn run_x86_64(w: &World, entry: u64, allowed: &[(u64, u64)], stop_at: Option
                 stack.push(regs[r]);
                 ex.stack_delta -= 8;
                 ex.written |= 1 << 4;
+                ex.lens.push((p + 1 - pc) as u8);
                 pc = p + 1;
             }
             0x58..=0x5F => {
@@ -241,6 +257,7 @@ pub fn run_x86_64(w: &World, entry: u64, allowed: &[(u64, u64)], stop_at: Option
                 regs[r] = stack.pop().unwrap_or(XReg { mask: 0, val: 0 });
                 ex.stack_delta += 8;
                 ex.written |= (1 << r) | (1 << 4);
+                ex.lens.push((p + 1 - pc) as u8);
                 pc = p + 1;
             }
             0x68 => {
@@ -251,9 +268,11 @@ pub fn run_x86_64(w: &World, entry: u64, allowed: &[(u64, u64)], stop_at: Option
                 stack.push(XReg { mask: u64::MAX, val: v as i64 as u64 });
                 ex.stack_delta -= 8;
                 ex.written |= 1 << 4;
+                ex.lens.push((p + 5 - pc) as u8);
                 pc = p + 5;
             }
             0xC3 => {
+                ex.lens.push((p + 1 - pc) as u8);
                 ex.stack_delta += 8;
                 match stack.pop() {
                     Some(x) if x.mask == u64::MAX => pc = x.val,
@@ -300,6 +319,7 @@ pub fn run_a64(w: &World, entry: u64, allowed: &[(u64, u64)], stop_at: Option<u6
         }
         ex.steps += 1;
         ex.executed.push(pc);
+        ex.lens.push(4);
         let insn = match fetch(w, pc, 4) {
             Ok(v) => u32::from_le_bytes(v.try_into().unwrap()),
             Err(e) => fail!("{e}"),
@@ -488,6 +508,7 @@ pub fn run_arm(w: &World, entry: u64, allowed: &[(u64, u64)], stop_at: Option<u6
                 Ok(v) => u32::from_le_bytes(v.try_into().unwrap()),
                 Err(e) => fail!("{e}"),
             };
+            ex.lens.push(4);
             if insn >> 28 != 0xE {
                 fail!("conditional or unconditional-space ARM instruction {insn:#010x} at {pc:#x}");
             }
@@ -574,6 +595,7 @@ pub fn run_arm(w: &World, entry: u64, allowed: &[(u64, u64)], stop_at: Option<u6
             };
             let pcv = (pc as u32).wrapping_add(4);
             let is32 = hw1 >> 11 >= 0x1D;
+            ex.lens.push(if is32 { 4 } else { 2 });
             if !is32 {
                 if hw1 & 0xF800 == 0x4800 {
                     // LDR Rt, [PC, #imm8*4]
